@@ -183,6 +183,8 @@ def shapes_for(tier, t):
         sh += [("ctx-direct", 1, 7)]          # streaming direct API, the context is scanned after FINALIZE
     if (t["cipher"] == 18 and len(t["key"]) == 32) or (t["cipher"] == 12 and len(t["key"]) in (16, 32)):
         sh += [("quic-hp", 16, 8)]            # QUIC header protection with this key, 1..32 packets per call
+    if t["cipher"] in (5, 19) and len(t["iv"]) == 12 and len(t["key"]) in (16, 32) and t["dir"] == 1:
+        sh += [("quic-aead", 16, 8)]          # imb_quic_aes_gcm / imb_quic_chacha20_poly1305, 1..32 packets per call
     if tier != "quick":
         sh += [("sync-nocheck", 3, 6)]
     return sh
